@@ -48,3 +48,26 @@ func TestTokenize(t *testing.T) {
 		}
 	}
 }
+
+func TestTokenizeHTML(t *testing.T) {
+	cases := []struct{ src, want string }{
+		{"a<![CDATA[ {{ 1 }} {# c #} ]]>b{{ 2 }}", `text"a<![CDATA[ {{ 1 }} {# c #} ]]>b" show"{{ 2 }}"`},
+		{"]]><![CDATA[x]]><![CDATA[ {{ 1 }} ]]>{{ 2 }}", `text"]]><![CDATA[x]]><![CDATA[ {{ 1 }} ]]>" show"{{ 2 }}"`},
+		{"<![CDATA[ {{ 1 }}", `text"<![CDATA[ {{ 1 }}"`},
+		{"<![CDATA[]]>{{ 1 }}]]>", `text"<![CDATA[]]>" show"{{ 1 }}" text"]]>"`},
+		{"<![CDAT[{{ 1 }}]]>", `text"<![CDAT[" show"{{ 1 }}" text"]]>"`},
+	}
+	for _, c := range cases {
+		ps, err := TokenizeHTML([]byte(c.src))
+		if err != nil {
+			t.Errorf("%q: %v", c.src, err)
+			continue
+		}
+		if got := Describe([]byte(c.src), ps); got != c.want {
+			t.Errorf("%q:\n got  %s\n want %s", c.src, got, c.want)
+		}
+	}
+	if ps, _ := Tokenize([]byte("<![CDATA[{{ 1 }}]]>")); len(ps) != 3 {
+		t.Errorf("Tokenize must not know CDATA")
+	}
+}
